@@ -74,4 +74,11 @@ func main() {
 	}
 	n, err := sample.Plain([]byte{4, 5}, []crypto.Hash{crypto.SHA1, crypto.SHA256})
 	fmt.Println(n, e(err))
+	// session 8: a function-typed parameter of a translated function
+	c1, c2 := sample.Checks([]byte{1, 2, 3})
+	fmt.Println(c1, c2)
+	for _, want := range []int{32, 20} {
+		ok, err := sample.Lit([]byte{1, 2}, want)
+		fmt.Println(ok, err != nil)
+	}
 }
